@@ -250,6 +250,13 @@ func (g *revGen) chainMin(depth, min int) V {
 }
 
 func genRevealTree(r *rand.Rand, id string, tier string) string {
+	if tier == "thorough" {
+		// exhaustive first: every small tree (revealenum.go), then random ones
+		if all, idx := revEnum(), caseIndex(id); idx < len(all) {
+			r.Intn(2) // keep the random stream moving
+			return revealPayload(all[idx])
+		}
+	}
 	g := &revGen{r: r, nilPtr: os.Getenv("VERIF_C20_NILPTR") != "0"}
 	switch r.Intn(6) {
 	case 0:
